@@ -13,7 +13,14 @@ package main
 //     carry their keys in every accepted spelling (c17Spell: snake_case, mixed case, separators, unknown keys) and, for
 //     the numeric destination types, numbers in every source form (c17NumSource), so that the lazily filled
 //     structures and the package-level builder singletons are exercised by many goroutines at once.
-//     - c17CacheStorm: all goroutines ask one session for the same cold types at the same moment.
+//     - c17CacheStorm: all goroutines ask one session for the same cold types at the same moment, among them never-seen
+//     types whose generation fails late (an unsupported field behind 20..200 new nested struct types, c17DeepBad):
+//     every call must end with an error of the library as it does alone (a runtime error is a failure of its own key).
+//     - c17LazyStorm: separate instances only (own configuration, validators, decoders, unmarshalers per goroutine) on
+//     documents that make package-level state of the library be initialised while others use it: integer map / record
+//     type keys of widths the process has not met (4 ... hundreds of words), every array type, records, and CTE text with
+//     verbatim sequences whose sentinels differ between the goroutines; run-alone results are computed afterwards, every
+//     call has a time limit.
 //     - c17SessionStorm: every shareable session topology (one shared session, children made after / while the
 //     parent is used, parent-child-grandchild chains) with a barrier per step, new key spellings in every step,
 //     record types in every other round.
@@ -1082,6 +1089,7 @@ func c17MakeItems(r *rand.Rand, nDyn, nItems int, tag string) []*c17Item {
 var c17AloneHangs []string
 
 type c17Mismatch struct {
+	Key       string `json:",omitempty"` // the failure key when it is not C17/differs-from-alone/<mode>/<op>
 	Mode, Op  string
 	Goroutine int
 	Item      int
@@ -1471,6 +1479,289 @@ func c17SessionStorm(seed int64, goroutines, procs int, topo string, rounds, ste
 	return rep
 }
 
+// ---------------------------------------------------------------------------
+// Lazy storm: SEPARATE instances only (every goroutine has its own configuration, validators, decoders, unmarshalers).
+// What they can still share is package-level state of the library; the documents make every lazily initialised
+// structure be initialised while others use it:
+//
+//	- maps and record types whose keys are integers of many widths (4 ... several hundred machine words, both signs),
+//	  every step with widths this process has not seen before (the first sighting of a width is what matters), next
+//	  to narrow integers, UID and text keys, and now and then a duplicate key (the document is then invalid
+//	  at a known position)
+//	- record types and records, every array type (whole and in chunks)
+//	- CTE text with verbatim sequences (\.SENTINEL text SENTINEL) whose sentinels differ between the goroutines at
+//	  every moment, the text mentioning the sentinels of the others
+//
+// All goroutines are released together at every step.  The run-alone results are computed AFTER the goroutines are
+// through (computing them before would initialise, sequentially, exactly what the goroutines are to initialise at the
+// same time).  Every call has a time limit: a call that does not return is a failure of its own.
+
+const c17LazyVariants = 4
+
+var c17Sentinels = []string{"@@", "ZZZ", "#", "%%%%", "=+=", "QQ", "~~~~~", "xyz", "A", "a1", "||", "-->", "EOT", "$", "^^", "é"}
+
+type c17LazyDoc struct {
+	evs        []Ev
+	docB, docT []byte
+	text       []byte // hand-written CTE with verbatim sequences
+	maxDigits  uint64 // Rules.MaxIntegerDigitCount of the configuration (0: default)
+}
+
+var c17LazyOps = []string{"validate", "decode-cbe", "decode-cte", "decode-cte-verbatim", "unmarshal-cte-verbatim"}
+
+func c17WideInt(r *rand.Rand, words int) *big.Int {
+	b := new(big.Int).Lsh(big.NewInt(int64(r.Intn(1000))+1), uint(64*(words-1)+r.Intn(50)))
+	b.Add(b, big.NewInt(int64(r.Intn(1000))))
+	if r.Intn(2) == 0 {
+		b.Neg(b)
+	}
+	return b
+}
+
+// widths: the word counts of the wide keys of this document
+func c17MakeLazyDoc(r *rand.Rand, widths []int, own string, others []string) *c17LazyDoc {
+	d := &c17LazyDoc{}
+	if r.Intn(2) == 0 {
+		d.maxDigits = 1000000
+	}
+	str := func(s string) Ev { return Ev{K: "sa", A: events.ArrayTypeString, Data: []byte(s)} }
+	evs := []Ev{{K: "bd"}, {K: "v", N: 0}}
+	// a record type whose keys are wide integers too
+	evs = append(evs, Ev{K: "rt", Data: []byte("wide")})
+	nRecKeys := 0
+	for _, w := range widths {
+		if r.Intn(2) == 0 {
+			evs = append(evs, Ev{K: "bi", Big: c17WideInt(r, w)})
+			nRecKeys++
+		}
+	}
+	evs = append(evs, str("name"), Ev{K: "e"})
+	nRecKeys++
+	evs = append(evs, Ev{K: "l"})
+	// the map with keys of every kind
+	evs = append(evs, Ev{K: "m"})
+	var first *big.Int
+	for _, w := range widths {
+		for n := 1 + r.Intn(2); n > 0; n-- {
+			k := c17WideInt(r, w)
+			if first == nil {
+				first = k
+			}
+			evs = append(evs, Ev{K: "bi", Big: k}, Ev{K: "pi", N: uint64(w)})
+		}
+	}
+	evs = append(evs, Ev{K: "pi", N: uint64(r.Intn(100))}, Ev{K: "null"})
+	evs = append(evs, Ev{K: "ni", N: uint64(r.Intn(100) + 1)}, Ev{K: "t"})
+	evs = append(evs, Ev{K: "bi", Big: new(big.Int).Lsh(big.NewInt(int64(r.Intn(100)+1)), uint(64+r.Intn(100)))}, Ev{K: "f"})
+	evs = append(evs, Ev{K: "uid", Data: []byte{1, 2, 3, 4, 5, 6, 7, 8, 9, 10, 11, 12, 13, 14, 15, byte(r.Intn(256))}}, Ev{K: "null"})
+	evs = append(evs, str("text key"), Ev{K: "null"})
+	if r.Intn(6) == 0 && first != nil { // the first wide key again: rejected here
+		evs = append(evs, Ev{K: "bi", Big: new(big.Int).Set(first)}, Ev{K: "null"})
+	}
+	evs = append(evs, Ev{K: "e"})
+	// a record
+	evs = append(evs, Ev{K: "rec", Data: []byte("wide")})
+	for i := 0; i < nRecKeys; i++ {
+		evs = append(evs, Ev{K: "pi", N: uint64(i)})
+	}
+	evs = append(evs, Ev{K: "e"})
+	// every array type, whole or in two chunks
+	for at := events.ArrayType(0); at < events.NumArrayTypes; at++ {
+		width := 0
+		switch at {
+		case events.ArrayTypeUint8, events.ArrayTypeInt8:
+			width = 1
+		case events.ArrayTypeUint16, events.ArrayTypeInt16, events.ArrayTypeFloat16:
+			width = 2
+		case events.ArrayTypeUint32, events.ArrayTypeInt32, events.ArrayTypeFloat32:
+			width = 4
+		case events.ArrayTypeUint64, events.ArrayTypeInt64, events.ArrayTypeFloat64:
+			width = 8
+		}
+		if width == 0 {
+			continue
+		}
+		n := 2 + r.Intn(3)
+		data := make([]byte, n*width)
+		for i := 0; i < n; i++ {
+			data[i*width] = byte(r.Intn(100))
+			if width >= 4 && (at == events.ArrayTypeFloat32 || at == events.ArrayTypeFloat64) {
+				data[i*width], data[i*width+width-1], data[i*width+width-2] = 0, 0x40, byte(r.Intn(0x70)) // ordinary numbers
+			}
+		}
+		if r.Intn(2) == 0 {
+			evs = append(evs, Ev{K: "a", A: at, N: uint64(n), Data: data})
+		} else {
+			evs = append(evs, Ev{K: "ab", A: at}, Ev{K: "ac", N: 1, B: true}, Ev{K: "ad", Data: data[:width]},
+				Ev{K: "ac", N: uint64(n - 1), B: false}, Ev{K: "ad", Data: data[width:]})
+		}
+	}
+	evs = append(evs, str("plain text "+own), Ev{K: "e"}, Ev{K: "ed"})
+	d.evs = evs
+	cfg := configuration.New()
+	d.docB, d.docT = c17EncodeBoth(cfg, evs)
+	// verbatim sequences: own sentinel, the text mentions the others' sentinels
+	sb := strings.Builder{}
+	sb.WriteString("c0\n[\n")
+	for i := 0; i < 3+r.Intn(4); i++ {
+		sb.WriteString("    \"lead " + fmt.Sprint(i) + " \\." + own + " ")
+		for j := 0; j < 1+r.Intn(4); j++ {
+			sb.WriteString(fmt.Sprintf("text %d.%d ", i, j))
+			if len(others) > 0 {
+				sb.WriteString(others[r.Intn(len(others))] + " ")
+			}
+		}
+		sb.WriteString(own)
+		if r.Intn(2) == 0 {
+			sb.WriteString(" tail \\." + own + " x" + own)
+		}
+		sb.WriteString("\"\n")
+	}
+	sb.WriteString("]\n")
+	d.text = []byte(sb.String())
+	return d
+}
+
+func (d *c17LazyDoc) cfg() *configuration.Configuration {
+	cfg := configuration.New()
+	if d.maxDigits != 0 {
+		cfg.Rules.MaxIntegerDigitCount = d.maxDigits
+	}
+	return cfg
+}
+
+// one call on new instances made for it from a configuration of its own; kept: the goroutine's own reused unmarshaler (may be nil)
+func c17LazyCall(d *c17LazyDoc, op string, kept ce.Unmarshaler) (res c17Result) {
+	defer func() {
+		if r := recover(); r != nil {
+			res = c17Result{Err: true, Text: "panic"}
+		}
+	}()
+	cfg := d.cfg()
+	rec := &Recorder{}
+	switch op {
+	case "validate":
+		rej, _ := playAll(ce.NewRules(rec, cfg), d.evs)
+		return c17Result{Err: rej >= 0, Text: fmt.Sprintf("rej=%d ", rej) + evsString(rec.Evs)}
+	case "decode-cbe":
+		err := ce.NewCBEDecoder(cfg).DecodeDocument(d.docB, ce.NewRules(rec, cfg))
+		return c17Result{Err: err != nil, Text: evsString(rec.Evs)}
+	case "decode-cte":
+		err := ce.NewCTEDecoder(cfg).DecodeDocument(d.docT, ce.NewRules(rec, cfg))
+		return c17Result{Err: err != nil, Text: evsString(rec.Evs)}
+	case "decode-cte-verbatim":
+		err := ce.NewCTEDecoder(cfg).DecodeDocument(d.text, ce.NewRules(rec, cfg))
+		return c17Result{Err: err != nil, Text: evsString(rec.Evs)}
+	case "unmarshal-cte-verbatim":
+		if kept == nil {
+			kept = ce.NewCTEUnmarshaler(cfg)
+		}
+		o, err := kept.UnmarshalFromDocument(d.text, nil)
+		return c17Result{Err: err != nil, Obj: o}
+	}
+	panic("bad op " + op)
+}
+
+func c17LazyStorm(seed int64, goroutines, procs, rounds, steps int) c17WorkloadReport {
+	rep := c17WorkloadReport{Seed: seed, Goroutines: goroutines, Procs: procs, Mode: "lazy", OpsCount: map[string]int{}}
+	old := runtime.GOMAXPROCS(procs)
+	defer runtime.GOMAXPROCS(old)
+	r := rand.New(rand.NewSource(seed))
+	var mu sync.Mutex
+	nextWidth := 5 // word count (with the sign word) 5 is the first that is not a fixed-size case in the library: start below it
+	for round := 0; round < rounds; round++ {
+		plan := make([][c17LazyVariants]*c17LazyDoc, steps)
+		for k := range plan {
+			// widths nobody in this process has met: three new ones per step (all variants use them, so that the
+			// goroutines meet them at the same moment), plus one old one
+			widths := []int{nextWidth - 1, nextWidth, nextWidth + 1, 4 + r.Intn(nextWidth)}
+			nextWidth += 2 + r.Intn(3)
+			for v := 0; v < c17LazyVariants; v++ {
+				own := c17Sentinels[(k*c17LazyVariants+v)%len(c17Sentinels)]
+				others := []string{}
+				for w := 0; w < c17LazyVariants; w++ {
+					if w != v {
+						others = append(others, c17Sentinels[(k*c17LazyVariants+w)%len(c17Sentinels)])
+					}
+				}
+				plan[k][v] = c17MakeLazyDoc(r, widths, own, others)
+			}
+		}
+		got := make([][][]c17Result, goroutines) // goroutine x step x op
+		hung := make([]string, goroutines)
+		bar := &c17Barrier{n: goroutines}
+		bar.cond = sync.NewCond(&bar.mu)
+		var wg sync.WaitGroup
+		for g := 0; g < goroutines; g++ {
+			wg.Add(1)
+			go func(g int) {
+				defer wg.Done()
+				var kept ce.Unmarshaler
+				if g%2 == 0 {
+					kept = ce.NewCTEUnmarshaler(configuration.New())
+				}
+				res := make([][]c17Result, steps)
+				dead := false
+				for k := range plan {
+					bar.wait()
+					if dead {
+						continue // keeps the barrier going for the others
+					}
+					d := plan[k][(g+k)%c17LazyVariants]
+					res[k] = make([]c17Result, len(c17LazyOps))
+					for i, op := range c17LazyOps {
+						var x c17Result
+						op := op
+						if !c17Guard(30*time.Second, func() { x = c17LazyCall(d, op, kept) }) {
+							hung[g] = fmt.Sprintf("step %d %s", k, op)
+							dead = true
+							break
+						}
+						res[k][i] = x
+					}
+				}
+				mu.Lock()
+				got[g] = res
+				mu.Unlock()
+			}(g)
+		}
+		if !c17Guard(time.Duration(60+2*steps)*time.Second, wg.Wait) {
+			rep.Hung = true
+			return rep
+		}
+		// run alone, afterwards
+		for k := range plan {
+			var expect [c17LazyVariants][]c17Result
+			for g := 0; g < goroutines; g++ {
+				v := (g + k) % c17LazyVariants
+				if got[g] == nil || got[g][k] == nil {
+					continue
+				}
+				if expect[v] == nil {
+					expect[v] = make([]c17Result, len(c17LazyOps))
+					for i, op := range c17LazyOps {
+						expect[v][i] = c17LazyCall(plan[k][v], op, nil)
+					}
+				}
+				for i, op := range c17LazyOps {
+					rep.Calls++
+					rep.OpsCount["lazy-"+op]++
+					if hung[g] == fmt.Sprintf("step %d %s", k, op) {
+						rep.Mismatches = append(rep.Mismatches, c17Mismatch{Mode: "lazy", Op: op + "/never-returns", Goroutine: g, Item: k, Type: "document",
+							Expect: expect[v][i].String(), Got: "the call did not return within 30 s"})
+						break
+					}
+					if !got[g][k][i].same(expect[v][i]) {
+						rep.Mismatches = append(rep.Mismatches, c17Mismatch{Mode: "lazy", Op: op, Goroutine: g, Item: k, Type: "document",
+							Expect: expect[v][i].String(), Got: got[g][k][i].String()})
+					}
+				}
+			}
+		}
+	}
+	return rep
+}
+
 func c17WorkerMain(args []string) int {
 	if len(args) < 4 {
 		fmt.Fprintln(os.Stderr, "usage: vh c17worker <seed> <goroutines> <gomaxprocs> <mode> [items] [calls-per-goroutine]")
@@ -1504,6 +1795,8 @@ func c17WorkerMain(args []string) int {
 	}
 	if args[3] == "caches" {
 		rep = c17CacheStorm(seed, g, procs)
+	} else if args[3] == "lazy" {
+		rep = c17LazyStorm(seed, g, procs, nItems, callsPer) // rounds, steps
 	} else if strings.HasPrefix(args[3], "sessions-") {
 		rep = c17SessionStorm(seed, g, procs, strings.TrimPrefix(args[3], "sessions-"), nItems, callsPer) // rounds, steps
 	} else {
@@ -1544,6 +1837,19 @@ func c17CacheStorm(seed int64, goroutines, procs int) c17WorkloadReport {
 		}
 		cfg := configuration.New()
 		is, bs := iterator.NewSession(nil, cfg), builder.NewSession(nil, cfg)
+		// never-seen types whose generation fails late (an unsupported field behind many new nested struct types): all
+		// goroutines ask for the outermost type or for one of its inner levels at the same moment.  Alone, each of these
+		// calls ends with the library's own error; so it must here (not with a runtime error, not with a result).
+		deep := [][]reflect.Type{c17DeepBad(r, 20+r.Intn(40), fmt.Sprintf("deep-%d-%d-a", seed, round)), c17DeepBad(r, 100+r.Intn(100), fmt.Sprintf("deep-%d-%d-b", seed, round))}
+		deepExpect := c17Result{Err: true, Text: "panic"}
+		for _, lv := range deep {
+			for _, t := range []reflect.Type{lv[0], lv[len(lv)/2]} {
+				if got := c17IterUse(iterator.NewSession(nil, configuration.New()), t, reflect.New(t).Elem()); !got.same(deepExpect) {
+					c17AloneHangs = append(c17AloneHangs, "cache storm: a deep unsupported type does not fail with the library's error when run alone: "+got.String())
+					deep = nil
+				}
+			}
+		}
 		var wg sync.WaitGroup
 		start := make(chan struct{})
 		for g := 0; g < goroutines; g++ {
@@ -1551,6 +1857,45 @@ func c17CacheStorm(seed int64, goroutines, procs int) c17WorkloadReport {
 			go func(g int) {
 				defer wg.Done()
 				<-start
+				var deepMism []c17Mismatch
+				for n, lv := range deep {
+					// even goroutines: the outermost type; odd ones: an inner level (its placeholder is in the cache while
+					// the outer generation is on its way down)
+					t := lv[0]
+					if g%2 == 1 {
+						t = lv[(g/2*7+n)%(len(lv)-1)]
+					}
+					for rep := 0; rep < 2; rep++ {
+						for _, what := range []string{"marshal", "unmarshal"} {
+							var got c17Result
+							if what == "marshal" {
+								got = c17IterUse(is, t, reflect.New(t).Elem())
+								got.Bytes = nil
+							} else {
+								got = c17BuildDeep(bs, t)
+							}
+							if got.Err && got.Text != "panic/runtime-error" {
+								continue // an error of the library, as when run alone (raised at generation or, later, at use)
+							}
+							// no error at all: the known class (a function generated while it held the placeholder of a type whose
+							// generation failed later stays in the cache); a runtime error instead of the library's: a class of its own
+							key := "C17/result-changes-after-failed-first-use/" + what
+							if got.Err {
+								key = "C17/runtime-error-instead-of-the-error-returned-alone/" + what
+							}
+							deepMism = append(deepMism, c17Mismatch{Mode: "caches", Op: what + "/deep-unsupported-type", Key: key, Goroutine: g, Item: n,
+								Type: fmt.Sprintf("%d nested new struct types above an unsupported field", len(lv)), Expect: deepExpect.String(), Got: got.String()})
+						}
+					}
+				}
+				if len(deep) > 0 {
+					mu.Lock()
+					rep.Calls += 4 * len(deep)
+					rep.OpsCount["marshal/deep-unsupported-type"] += 2 * len(deep)
+					rep.OpsCount["unmarshal/deep-unsupported-type"] += 2 * len(deep)
+					rep.Mismatches = append(rep.Mismatches, deepMism...)
+					mu.Unlock()
+				}
 				// results are collected here and merged when the goroutine is through: taking the common lock after
 				// every call would order the calls of different goroutines for the race detector
 				nCalls, nPh := 0, 0
@@ -1593,6 +1938,43 @@ func c17CacheStorm(seed int64, goroutines, procs int) c17WorkloadReport {
 	return rep
 }
 
+// what kind of error a call ended with: one raised by the library ("panic") or one raised by the Go runtime (nil
+// pointer dereference, index out of range ...).  Only this distinction is compared, never the text of an error.
+func c17PanicClass(r interface{}) string {
+	if _, ok := r.(runtime.Error); ok {
+		return "panic/runtime-error"
+	}
+	return "panic"
+}
+
+// c17DeepBad makes a type the session has never seen whose generation fails late: depth new nested struct types, each
+// with a few ordinary fields, and a chan / func / complex field in the innermost one.  levels[i] is the type at
+// nesting depth i (levels[0] the outermost).
+func c17DeepBad(r *rand.Rand, depth int, tag string) (levels []reflect.Type) {
+	bad := []reflect.Type{reflect.TypeOf(make(chan int)), reflect.TypeOf(func() {}), reflect.TypeOf(complex64(0))}[r.Intn(3)]
+	t := reflect.StructOf([]reflect.StructField{
+		{Name: "PlainValue", Type: reflect.TypeOf(0), Tag: reflect.StructTag(fmt.Sprintf(`c17:"%s"`, tag))},
+		{Name: "BadValue", Type: bad}})
+	levels = []reflect.Type{t}
+	for d := 1; d < depth; d++ {
+		fields := []reflect.StructField{{Name: "LevelNumber", Type: reflect.TypeOf(int32(0)), Tag: reflect.StructTag(fmt.Sprintf(`c17:"%s-%d"`, tag, d))}}
+		if r.Intn(2) == 0 {
+			fields = append(fields, reflect.StructField{Name: "SomeText", Type: reflect.TypeOf("")})
+		}
+		inner := t
+		switch r.Intn(4) { // now and then behind a pointer or a slice
+		case 0:
+			inner = reflect.PtrTo(t)
+		case 1:
+			inner = reflect.SliceOf(t)
+		}
+		fields = append(fields, reflect.StructField{Name: "NextLevel", Type: inner})
+		t = reflect.StructOf(fields)
+		levels = append([]reflect.Type{t}, levels...)
+	}
+	return levels
+}
+
 // GetIteratorForType, then call the function on v with a CBE encoder behind it
 func c17IterUse(s *iterator.Session, t reflect.Type, v reflect.Value) (res c17Result) {
 	return c17IterUseK(s, t, v, nil)
@@ -1602,7 +1984,7 @@ func c17IterUse(s *iterator.Session, t reflect.Type, v reflect.Value) (res c17Re
 func c17IterUseK(s *iterator.Session, t reflect.Type, v reflect.Value, kind *string) (res c17Result) {
 	defer func() {
 		if r := recover(); r != nil {
-			res = c17Result{Err: true, Text: "panic"}
+			res = c17Result{Err: true, Text: c17PanicClass(r)}
 		}
 	}()
 	cfg := configuration.New()
@@ -1620,6 +2002,19 @@ func c17IterUseK(s *iterator.Session, t reflect.Type, v reflect.Value, kind *str
 	f(&ctx, v)
 	enc.OnEndDocument()
 	return c17Result{Bytes: append([]byte{}, buf.Bytes()...)}
+}
+
+// a builder for the (unsupported) type t from the shared session, fed an empty map
+func c17BuildDeep(s *builder.Session, t reflect.Type) (res c17Result) {
+	defer func() {
+		if r := recover(); r != nil {
+			res = c17Result{Err: true, Text: c17PanicClass(r)}
+		}
+	}()
+	cfg := configuration.New()
+	b := s.NewBuilderFor(reflect.New(t).Elem().Interface())
+	err := ce.NewCTEDecoder(cfg).DecodeDocument([]byte("c0 {}"), ce.NewRules(b, cfg))
+	return c17Result{Err: err != nil}
 }
 
 // GetBuilderGeneratorForType (through a builder for t), then build from the CBE document of v
@@ -2220,7 +2615,11 @@ func c17ConcScenario(c *Ctx, cf *caseFile, side string, threads [][]c17ScCall, p
 
 func c17FailMismatches(c *Ctx, rep c17WorkloadReport, how string) {
 	for _, m := range rep.Mismatches {
-		c.Fail(Replay{Kind: "workload", Key: fmt.Sprintf("C17/differs-from-alone/%s/%s", rep.Mode, m.Op),
+		key := fmt.Sprintf("C17/differs-from-alone/%s/%s", rep.Mode, m.Op)
+		if m.Key != "" {
+			key = m.Key
+		}
+		c.Fail(Replay{Kind: "workload", Key: key,
 			Input: map[string]string{"seed": fmt.Sprint(rep.Seed), "goroutines": fmt.Sprint(rep.Goroutines), "gomaxprocs": fmt.Sprint(rep.Procs),
 				"mode": rep.Mode, "how": how, "type": m.Type, "goroutine": fmt.Sprint(m.Goroutine), "item": fmt.Sprint(m.Item)},
 			Expect: m.Expect, Got: m.Got})
@@ -2377,7 +2776,7 @@ func c17RunCombos(c *Ctx, bin, how string, combos []c17Combo) (runs int) {
 }
 
 func runC17(c *Ctx) {
-	c.Rep.Rule = "workloads: (mode in separate|fresh|shared|shared-cold|caches|sessions-{one,children-after,children-during,chain}) x goroutine counts x GOMAXPROCS values, " +
+	c.Rep.Rule = "workloads: (mode in separate|fresh|shared|shared-cold|conversions|caches|lazy|sessions-{one,children-after,children-during,chain}) x goroutine counts x GOMAXPROCS values, " +
 		"each in a process of its own (plain build and race-detector build); every call of every goroutine is one evaluation, " +
 		"compared with the same call run alone on new instances; a call is non-trivial when its item has a struct/container type that the package-level root sessions do not hold " +
 		"(so the per-session cache is cold on first use); documents to unmarshal carry keys in every accepted spelling and numbers in every source form; " +
@@ -2402,6 +2801,9 @@ func runC17(c *Ctx) {
 		for _, gp := range [][2]int{{3, 2}, {8, 4}, {4, 4}, {16, 8}, {32, 16}} {
 			combos = append(combos, c17Combo{gp[0], gp[1], "sessions-" + topo, c.Pick(3, 6), c.Pick(40, 120)})
 		}
+	}
+	for _, gp := range [][2]int{{3, 2}, {8, 4}, {4, 4}, {16, 8}, {32, 16}} {
+		combos = append(combos, c17Combo{gp[0], gp[1], "lazy", c.Pick(1, 3), c.Pick(10, 30)})
 	}
 	allCombos := combos
 	if !c.Thorough() {
@@ -2438,12 +2840,14 @@ func runC17(c *Ctx) {
 	}
 	if raceBin != "" {
 		rcombos := []c17Combo{{8, 4, "separate", 14, 12}, {8, 4, "fresh", 14, 12}, {8, 4, "conversions", 16, 24}, {8, 2, "shared", 14, 12}, {16, 8, "shared-cold", 14, 12}, {16, 8, "caches", 0, 0},
-			{8, 4, "sessions-one", 2, 24}, {6, 4, "sessions-children-after", 2, 24}, {8, 8, "sessions-children-during", 2, 24}, {6, 2, "sessions-chain", 2, 24}}
+			{8, 4, "sessions-one", 2, 24}, {6, 4, "sessions-children-after", 2, 24}, {8, 8, "sessions-children-during", 2, 24}, {6, 2, "sessions-chain", 2, 24}, {8, 4, "lazy", 1, 8}}
 		if c.Thorough() {
 			rcombos = []c17Combo{}
 			for _, cb := range allCombos {
 				if strings.HasPrefix(cb.mode, "sessions-") {
 					cb.a, cb.b = 3, 60
+				} else if cb.mode == "lazy" {
+					cb.a, cb.b = 1, 16
 				} else {
 					cb.a, cb.b = 24, 40
 				}
@@ -2470,9 +2874,13 @@ func runC17(c *Ctx) {
 				c.Rep.Distribution[k] += n
 			}
 		}
+		merged := map[string]bool{}
 		for _, f := range sub.Failures {
 			c.Rep.Failures = append(c.Rep.Failures, f)
-			c.failed[f.Key] = sub.Distribution["fail:"+f.Key]
+			if !merged[f.Key] {
+				merged[f.Key] = true
+				c.failed[f.Key] += sub.Distribution["fail:"+f.Key]
+			}
 		}
 		c.Rep.CaseFiles = append(c.Rep.CaseFiles, sub.CaseFiles...)
 		c.Rep.CaseCount += sub.CaseCount
